@@ -13,7 +13,8 @@ Driver for C13: replays the harness' operations on the TransportationProblem mod
   inc               -> caps c0 c1 …         increaseCapacity()
   arow a0 a1 …      -> (nothing)            one row for setAllocations
   setalloc          -> setalloc ok | throw:runtime_error
-  solve             -> status ok|<error> ; alloc r0 | r1 | … ; cert ok|rejected
+  solve             -> status ok|<error> ; alloc r0 | r1 | … ; cert ok|rejected ; bound ok|violated
+                       (`bound`: costBoundOk, the hypothesis 3·|cost| < INT_MAX of the universal theorems)
   assign            -> assign s0 s1 …       toAssignment()
 -/
 open ColoVerif.Transp Driver
@@ -55,7 +56,8 @@ def step (s : DS) : List String → DS × List String
     | .ok pb =>
       ({ s with pb := pb },
        ["status ok", "alloc " ++ showMat pb.allocations,
-        if certifies pb pb.allocations then "cert ok" else "cert rejected"])
+        if certifies pb pb.allocations then "cert ok" else "cert rejected",
+        if costBoundOk pb then "bound ok" else "bound violated"])
   | ["assign"] => (s, [("assign " ++ " ".intercalate (s.pb.toAssignment.map toString)).trimAscii.toString])
   | [] => (s, [])
   | ws => (s, ["bad-op " ++ " ".intercalate ws])
